@@ -14,10 +14,10 @@ def corpus_runnable(b):
             res.append({'name': 'corpus:%s/%s' % (s['name'], s['lib']), 'lib': s['lib'], 'text': text, 'inc': s['dir'], 'expected': None, 'g': None})
     return res
 
-def generated(seedstr, n, mi_bits=62):
+def generated(seedstr, n, mi_bits=62, extra=None):
     res = []
     disc = 0
-    for sd, g, text, out, cls, d in gen.programs(seedstr, n, mi_bits=mi_bits):
+    for sd, g, text, out, cls, d in gen.programs(seedstr, n, mi_bits=mi_bits, extra=extra):
         res.append({'name': 'gen:' + sd, 'lib': 'aldor', 'text': text, 'inc': None, 'expected': (out, cls), 'g': g}); disc = d
     return res, disc
 
